@@ -70,8 +70,10 @@ func (a *c14Authorizer) AuthorizeObjectField(ctx *resolve.Context, dataSourceID 
 	}
 	return nil, nil
 }
-func (a *c14Authorizer) HasResponseExtensionData(ctx *resolve.Context) bool             { return false }
-func (a *c14Authorizer) RenderResponseExtension(ctx *resolve.Context, out io.Writer) error { return nil }
+func (a *c14Authorizer) HasResponseExtensionData(ctx *resolve.Context) bool { return false }
+func (a *c14Authorizer) RenderResponseExtension(ctx *resolve.Context, out io.Writer) error {
+	return nil
+}
 
 func (a *c14Authorizer) AuthorizeFields(ctx *resolve.Context, coordinates []resolve.GraphCoordinate) ([]resolve.AuthorizationDecision, error) {
 	out := make([]resolve.AuthorizationDecision, len(coordinates))
@@ -883,8 +885,8 @@ func c14DeniedOf(roots [][2]string, den map[[2]string]bool) [][2]string {
 
 func runC14(run *Run, replay string) Spec {
 	spec := Spec{
-		Level: "translation_validation",
-		Rule: "layout L1M (L1 + mutations) × generated universes × generated operations (queries, queries with @defer fragments, mutations with 1–3 root fields) × random protected sets P (closed under interface / implementation of a field) × random decisions d : P → allow|deny × both authorizer modes: engine data = Lean reference executor with Schema.denied = deny(d); string values that occur only at denied positions do not occur in the response bytes nor in any deferred payload; every position nulled by a denial has an authorization error at or below it and every authorization error names a null position; no subgraph request is sent that Authz.fetchSent forbids (query rule in up-front mode, mutation rule in both). non-trivial = cases in which a denial is reached; distinct = distinct (universe, operation, P, d)",
+		Level:       "translation_validation",
+		Rule:        "layout L1M (L1 + mutations) × generated universes × generated operations (queries, queries with @defer fragments, mutations with 1–3 root fields) × random protected sets P (closed under interface / implementation of a field) × random decisions d : P → allow|deny × both authorizer modes: engine data = Lean reference executor with Schema.denied = deny(d); string values that occur only at denied positions do not occur in the response bytes nor in any deferred payload; every position nulled by a denial has an authorization error at or below it and every authorization error names a null position; no subgraph request is sent that Authz.fetchSent forbids (query rule in up-front mode, mutation rule in both). non-trivial = cases in which a denial is reached; distinct = distinct (universe, operation, P, d)",
 		TrustedBase: []string{"the Lean reference executor GqlVerif.Gql.Exec with denied coordinates as the meaning of a denial (theorems in Props.C14)", "the harness' semantic subgraphs, authorizers (decision by coordinate only) and request parser", "the C10 frame recorder and Defer.reconstruct for deferred payloads"},
 		Assumptions: []string{"decisions depend on the coordinate only (not on the object data or the data source id)", "a field of an interface and the same field of its implementations are protected and decided together, so that the plan-time and the run-time coordinate of a position agree", "subscription updates are not exercised (no federated subscription transport in this harness); the deferred check is limited to leaks because of the open C10 findings"},
 	}
